@@ -333,6 +333,59 @@ func (e *env) findings() {
 	}
 }
 
+// encodeOnly compares the encoder on values outside the domain of the round-trip theorem (nil pointers,
+// inconsistent masks): bytes, error or panic kind, model vs implementation. No oracle: the property does not
+// quantify over these values; the theorems C01_nil_pointer_encodes_nothing / C01_nil_custom_pointer describe them.
+func (e *env) encodeOnly(stream string, v interface{}) {
+	t := reflect.TypeOf(v)
+	ty := codecx.TyExpr(t)
+	text := codecx.Print(v)
+	e.r.Hit("stream:" + stream)
+	_, encRes := implEncode(v)
+	e.r.Count("enc "+ty+" "+text, true)
+	if strings.HasPrefix(encRes, "ok") {
+		e.r.Hit("ill-formed-encode:ok")
+	} else {
+		e.r.Hit("ill-formed-encode:" + encRes)
+	}
+	e.r.Compare(e.d, fmt.Sprintf("enc %d %s %s", fuel, ty, text), encRes)
+}
+
+func (e *env) illFormed() {
+	// the zero value of every registered struct: every pointer nil, every slice nil
+	for _, reg := range e.g.Reg {
+		e.encodeOnly("zero-struct", reflect.New(reg.Type.Elem()).Interface())
+	}
+	g := ua.NewGUIDNodeID(1, "72962B91-FA75-4AE6-8D28-B404DC7DAF63")
+	_, _, _, _, gid := ua.VerifNodeIDFields(g)
+	for _, v := range []interface{}{
+		&ua.DataValue{EncodingMask: 1},                                                 // value bit, nil Variant
+		&ua.DataValue{EncodingMask: 0, Value: ua.MustVariant(int32(5))},                // Variant without the bit
+		&ua.DiagnosticInfo{EncodingMask: 0x40},                                         // inner bit, nil inner
+		&ua.DiagnosticInfo{EncodingMask: 0, InnerDiagnosticInfo: &ua.DiagnosticInfo{}}, // inner without the bit
+		&ua.ExtensionObject{EncodingMask: 1},                                           // nil TypeID
+		&ua.ExtensionObject{EncodingMask: 1, TypeID: ua.NewTwoByteExpandedNodeID(0)},   // nil Value, non-zero mask
+		&ua.ExtensionObject{EncodingMask: 1, TypeID: ua.NewFourByteExpandedNodeID(0, 631), Value: (*ua.ReadValueID)(nil)},
+		&ua.ExpandedNodeID{},                                  // nil NodeID
+		ua.VerifRawNodeID(4, 1, 0, nil, nil),                  // GUID type without a GUID
+		ua.VerifRawNodeID(0, 7, 300, []byte{1}, gid),          // two-byte id with everything set
+		ua.VerifRawNodeID(9, 0, 0, nil, nil),                  // invalid type
+		ua.VerifRawVariant(6, 0, 0, nil, nil),                 // type Int32, nil value
+		ua.VerifRawVariant(0x46, 0, 3, []int32{1}, int32(7)),  // dimensions bit, length 3, one entry
+		ua.VerifRawVariant(0x86, 2, 0, nil, []int32{1, 2, 3}), // length field differs from the value
+		ua.VerifRawVariant(22, 0, 0, nil, (*ua.ExtensionObject)(nil)),
+		ua.VerifRawVariant(17, 0, 0, nil, (*ua.NodeID)(nil)),
+		ua.VerifRawVariant(18, 0, 0, nil, (*ua.ExpandedNodeID)(nil)),
+		ua.VerifRawVariant(20, 0, 0, nil, (*ua.QualifiedName)(nil)),
+		ua.VerifRawVariant(0x91, 2, 0, nil, []*ua.NodeID{ua.NewTwoByteNodeID(1), nil}),
+		&ua.LocalizedText{EncodingMask: 0, Locale: "en", Text: "dropped"},
+		&ua.ReadValueID{},
+		&ua.ReadRequest{NodesToRead: []*ua.ReadValueID{nil}},
+	} {
+		e.encodeOnly("ill-formed", v)
+	}
+}
+
 func (e *env) registered() {
 	per := e.o.N(3, 60)
 	for _, reg := range e.g.Reg {
@@ -397,6 +450,7 @@ func main() {
 	e.g = &codecx.Gen{R: rnd, Reg: codecx.RegisteredTypes(), MaxDepth: 2, Hit: nil}
 	r.Rule = "case = (type, value): real ua.Encode / ua.Decode vs the Lean encode / decode on the same value and bytes; non-trivial = the encoding has more than one byte; distinct by (type, canonical value text)"
 	e.findings()
+	e.illFormed()
 	e.registered()
 	e.builtins()
 	r.Write(o.Out)
